@@ -2,9 +2,5 @@
 //@use prelude/head.rs
 // not under contract: the rest of the lex specification parser (totality judged by the c12 lex sweep when one changes)
 //@pin file=lrlex/src/lib/parser.rs fn=new_with_lex_flags sha=a76f5cdc9df63758
-//@pin file=lrlex/src/lib/parser.rs fn=validate_start_state sha=5fad04a1130600f8
-//@pin file=lrlex/src/lib/parser.rs fn=validate_start_state_name sha=66b2134cf6b64e66
-//@pin file=lrlex/src/lib/parser.rs fn=add_duplicate_occurrence sha=b02837fbe7096836
-//@pin file=lrlex/src/lib/parser.rs fn=get_start_state_by_name sha=cd400f97ff97934b
 //@pin file=lrlex/src/lib/parser.rs fn=matches_whitespace sha=b207bc6cc0894cff
 //@use prelude/tail.rs
